@@ -147,17 +147,10 @@ class SharedMemoryFileBufferedCollection(FileBufferedCollection):
                         # metadata after the current flush.
                         cached_data["metadata"] = self._get_file_metadata()
                         cached_data["modified"] = False
-        else:
-            # If this object is still buffered _and_ this wasn't a force flush,
-            # that implies a nesting of buffered contexts in which another
-            # collection pointing to the same data flushed the buffer. This
-            # object's data will still be pointing to that one, though, so the
-            # safest choice is to reinitialize its data from scratch.
-            with self._suspend_sync:
-                # Rebuild into a fresh container of the same kind (dict or list).
-                data = self._to_base()
-                self._data = type(self._data)()
-                self._update(data, _validate=True)
+        # Otherwise this object is still buffered by an enclosing context (its
+        # own buffered context was left inside buffer_backend()): nothing is
+        # flushed, and its data keeps referencing the buffer. Rebuilding the
+        # data here would detach nested collections retained by the user.
 
     def _load(self):
         """Load data from the backend but buffer if needed.
